@@ -17,6 +17,8 @@ import (
 	"github.com/mdzio/go-mqtt/service"
 )
 
+var kaSetupMu sync.Mutex
+
 type kaCore struct {
 	mu  sync.Mutex
 	res map[int]chan string
@@ -73,6 +75,18 @@ func kaConnect(svr *service.Server, id int, c wConnect) (*rawClient, bool) {
 func kaScenario(id, K int, interval time.Duration, count int, kind string) string {
 	n := atomic.AddInt64(&providerSeq, 1)
 	name := fmt.Sprintf("verifka%d", n)
+	// the library's provider registries are plain package-level maps (finding G4): registration writes them, a
+	// server reads them once, at its first connection (checkConfiguration); scenarios start concurrently, so
+	// both happen under one harness lock (a 29-scenario run crashed with "concurrent map read and map write")
+	kaSetupMu.Lock()
+	setupLocked := true
+	unlockSetup := func() {
+		if setupLocked {
+			setupLocked = false
+			kaSetupMu.Unlock()
+		}
+	}
+	defer unlockSetup()
 	registerProviders(name)
 	svr := &service.Server{ConnectTimeout: 1, SessionsProvider: name, TopicsProvider: name, Authenticator: "verifAuth"}
 	deaf := kind == "deafsub" || kind == "deafecho" || kind == "deafflood"
@@ -81,6 +95,7 @@ func kaScenario(id, K int, interval time.Duration, count int, kind string) strin
 	}
 	willTopic := []byte(fmt.Sprintf("will/%d", id))
 	wit, ok := kaConnect(svr, 1, wConnect{protoName: []byte("MQTT"), version: 4, clean: true, clientID: []byte("witness"), keepAlive: 300})
+	unlockSetup()
 	if !ok {
 		return "witness-refused"
 	}
